@@ -58,13 +58,25 @@ class Meta(type):
         raise AttributeError(name)
 
 
+class MetaHash(type):
+    """metaclass whose __hash__ is a Python-level callback: every lookup of the class in a Python dict (the Python registry table) is a yield point."""
+
+    def __hash__(cls):
+        U.tick('metaclass.__hash__', None)
+        return type.__hash__(cls)
+
+    def __eq__(cls, other):
+        return cls is other
+
+
 def fresh_types():
     TC = Meta('TC', (tuple,), {})  # tuple subclass: _fields / n_fields lookups hit Meta.__getattr__
     NT = type('NTc', (namedtuple('NTcBase', ['a', 'b']),), {'__slots__': ()})
     P = type('Pc', (), {})
     Q = type('Qc', (), {})
     R = type('Rc', (), {})
-    return dict(TC=TC, NT=NT, P=P, Q=Q, R=R)
+    H = MetaHash('Hc', (), {})
+    return dict(TC=TC, NT=NT, P=P, Q=Q, R=R, H=H)
 
 
 def _fl(o):
@@ -100,6 +112,7 @@ def build_ops(names, scen, seed):  # noqa: C901
     # a class registered up-front (for 'unreg') and a tree containing instances of Q (for the overlap op)
     optree.register_pytree_node(T['P'], _fl, _un, namespace=NSC)
     optree.register_pytree_node(T['R'], _fl, _un, namespace=NSC)
+    optree.register_pytree_node(T['H'], _fl, _un, namespace=NSC)
     r1, r2, r3 = T['R'](), T['R'](), T['R']()
     c['rtree'] = ({'a': r1, 'b': [U.Leaf('y')]}, [r2, (r3,)])
     # trees that are deep but legal on their own (600 and 450 levels), with a single yield point at the very bottom (the custom flatten of P)
@@ -161,6 +174,10 @@ def build_ops(names, scen, seed):  # noqa: C901
         'deep-structure': lambda: canon(optree.tree_structure(c['deep'], namespace=NSC)),
         'deep-map': lambda: canon(optree.tree_map(lambda x, y: x, c['deep2'], c['deep2'], namespace=NSC)),
         'unreg-r': lambda: unreg(T['R'], NSC),
+        # unregistration racing with a re-registration of the same (type, namespace); the class's metaclass makes the Python table lookups yield
+        'unreg-h': lambda: unreg(T['H'], NSC),
+        'rereg-h': lambda: reg(T['H'], NSC, 'h', _fl2),
+        'unreg-h2': lambda: unreg(T['H'], NSC),
         'flatten-r': lambda: flatten_q('rtree', 'robjs', 'flatten-r'),
         'consume-a': consume('a'),
         'consume-b': consume('b'),
@@ -226,7 +243,7 @@ def all_pairs():
         for a in ('flatten', 'flatten_with_path', 'iter', 'unflatten', 'map', 'pickle', 'eq', 'flatten_up_to', 'classify'):
             pairs.append((r, a))
     pairs += [('reg-nt', 'reg-meta'), ('reg-nt', 'unreg'), ('reg-meta', 'unreg'), ('reg-same-a', 'reg-same-b'), ('reg-same-nt-a', 'reg-same-nt-b'), ('reg-same-meta-a', 'reg-same-meta-b'),
-              ('reg-q', 'flatten-q'), ('unreg-r', 'flatten-r'), ('consume-a', 'consume-b')]
+              ('reg-q', 'flatten-q'), ('unreg-r', 'flatten-r'), ('unreg-h', 'rereg-h'), ('unreg-h', 'unreg-h2'), ('consume-a', 'consume-b')]
     return pairs
 
 
@@ -236,7 +253,7 @@ def triples(rng, n):
     for _ in range(n):
         t = tuple(rng.sample(pool_, 3))
         out.append(t)
-    out += [('reg-same-a', 'reg-same-b', 'flatten'), ('reg-same-nt-a', 'reg-same-nt-b', 'flatten'), ('reg-same-meta-a', 'reg-same-meta-b', 'classify'), ('consume-a', 'consume-b', 'hash'), ('reg-q', 'flatten-q', 'reg-nt'), ('unreg-r', 'flatten-r', 'flatten'), ('unreg-r', 'flatten-r', 'reg-q')]
+    out += [('reg-same-a', 'reg-same-b', 'flatten'), ('reg-same-nt-a', 'reg-same-nt-b', 'flatten'), ('reg-same-meta-a', 'reg-same-meta-b', 'classify'), ('consume-a', 'consume-b', 'hash'), ('reg-q', 'flatten-q', 'reg-nt'), ('unreg-r', 'flatten-r', 'flatten'), ('unreg-r', 'flatten-r', 'reg-q'), ('unreg-h', 'rereg-h', 'unreg-h2'), ('unreg-h', 'rereg-h', 'flatten')]
     return out
 
 
@@ -294,6 +311,26 @@ def check_schedule(sink, s, c, names, solo, ident):  # noqa: C901
         sink.check(ok, f'flatten-overlapping-{what}', 'a flatten overlapping a registry change sees, per node, the old or the new registration - never a torn one', jid, repr(r))
         if ok:
             sink.count(f'overlap-kinds:{what}:' + ''.join(k[0] for k in r[1][1]))
+    if 'unreg-h' in names:
+        # whatever the interleaving: the engine and the python table agree about H, and what happens next is consistent with it
+        cls = c['T']['H']
+        engine_custom = optree.tree_structure(cls(), namespace=NSC).kind == optree.PyTreeKind.CUSTOM
+        py_entry = optree.register_pytree_node.get(cls, namespace=NSC)
+        try:
+            one_level = optree.tree_flatten_one_level(cls(), namespace=NSC).kind == optree.PyTreeKind.CUSTOM
+        except ValueError:
+            one_level = False
+        outs = {n_: (s.results[names.index(n_)][1] if s.results[names.index(n_)][0] == 'ok' else s.results[names.index(n_)][1]) for n_ in names if n_ in ('unreg-h', 'rereg-h', 'unreg-h2')}
+        sink.check(engine_custom == (py_entry is not None) == one_level, 'unregister-vs-register/torn-registry', 'after racing (un)registrations of one (type, namespace) the engine and the python table agree', jid,
+                   lambda: dict(engine_custom=engine_custom, python_entry=py_entry is not None, one_level=one_level, outcomes=outs))
+        sink.check(all(v in ('unregistered', 'registered', 'ValueError') for v in outs.values()), 'unregister-vs-register/outcome', 'every racing call succeeds or fails with ValueError', jid, outs)
+        try:
+            optree.unregister_pytree_node(cls, namespace=NSC)
+            nxt = 'unregistered'
+        except Exception as ex:  # noqa: BLE001
+            nxt = type(ex).__name__
+        sink.check(nxt == ('unregistered' if engine_custom else 'ValueError'), 'unregister-vs-register/next-unregister', 'a following unregister succeeds iff the type is registered', jid, (nxt, engine_custom))
+        sink.count('unregister-vs-register-races')
     if 'unreg-r' in names:
         r = s.results[names.index('unreg-r')]
         sink.check(r == ('ok', 'unregistered'), 'unregistration-failed/unreg-r', 'unregistering a registered type succeeds', jid, repr(r))
@@ -632,5 +669,6 @@ def finalize(sink, tier, seed):
     sink.require('shared-iter-both-consumed')
     for k in ('Q', 'NT', 'TC'):
         sink.require(f'same-registration-races:{k}', 5)
+    sink.require('unregister-vs-register-races', 20)
     for site in ('pred', 'flatten', 'unflatten', 'f', 'f_node', 'f_leaf', 'key.__hash__', 'key.__eq__', 'key.__lt__', 'key.__repr__', 'meta.__eq__', 'entry.__init__', 'metaclass.__getattr__', 'warnings.showwarning'):
         sink.require(f'parked-at:{site}')
